@@ -990,6 +990,12 @@ func (g *GoFakeS3) putMultipartUploadPart(bucket, object string, uploadID Upload
 		return ErrInvalidPart
 	}
 
+	// UploadPartCopy is not implemented: without this its empty request body
+	// would be taken for the part.
+	if _, ok := r.Header[textproto.CanonicalMIMEHeaderKey("X-Amz-Copy-Source")]; ok {
+		return ErrorMessage(ErrNotImplemented, "UploadPartCopy is not implemented")
+	}
+
 	// A part may be empty: only an absent or unusable length is refused.
 	size, err := strconv.ParseInt(r.Header.Get("Content-Length"), 10, 64)
 	if err != nil || size < 0 {
